@@ -109,3 +109,10 @@ Theorem gen_write_bytes_constants_are_the_model :
   nth_error GEN_WRITE_BYTES_CMD 4 = Some [116; 101; 101]%N.                                       (* ... | tee *)
 Proof. repeat split. Qed.
 Print Assumptions gen_write_bytes_constants_are_the_model.
+
+(* ---- the status command of exec (Linux shells and U-Boot) and U-Boot's crc32 work-around ---- *)
+Theorem gen_status_command_is_the_model :
+  GEN_ECHO_Q = ECHO_Q /\ GEN_UB_ECHO_Q = ECHO_Q /\
+  forall args c, gen_ub_override args c = ub_override args c.
+Proof. split; [reflexivity|]. split; [reflexivity|]. intros args c. reflexivity. Qed.
+Print Assumptions gen_status_command_is_the_model.
